@@ -45,6 +45,11 @@ def cases(rng, tier):
             {"op": "authorize", "client": "c1", "redirect": at_auth, "scope": "a", "challenge": None, "method": None, "user": 1, "approve": True},
             {"op": "redeem", "auth": ["c1", "client_secret_basic"], "code": "code1", "redirect": at_token, "verifier": None}],
             "expect": [at_auth == esc, at_auth == esc and at_token == esc]})      # a code is issued for the registered spelling only; it is redeemed with the identical string only
+    # a denial expressed on the request object of the consent step (it still carries the resource owner): no code, hence no token
+    for approve in (False, True):
+        out.append({"cfg": dict(H.World().cfg), "ops": [
+            {"op": "authorize", "client": "c1", "redirect": "https://c1/cb", "scope": "a", "challenge": None, "method": None, "user": 1, "approve": approve, "user_on_request": True},
+            {"op": "redeem", "auth": ["c1", "client_secret_basic"], "code": "code1", "redirect": "https://c1/cb", "verifier": None}]})
     for variant in ("other-client", "replay", "redirect-mismatch", "redirect-dropped", "redirect-added", "expired", "denied"):
         uri = "https://c1/cb2"
         ops = [{"op": "authorize", "client": "c1", "redirect": None if variant == "redirect-added" else uri, "scope": "a b", "challenge": None, "method": None, "user": 2,
